@@ -57,6 +57,60 @@ Section TagGen.
       end in
     (st_out, stmts st1 ++ [main] ++ bm).
 
+  (* write_attribute_value (class `L` / style `R.y` / id `R.i`) and Attribute::to_proc_gen_with_method (data-* `R.d` /
+     mark `M`) for a dynamic value; `call` is the text of the call up to the value: `L(N,` or `R.d(N,"k",`.  The
+     binding-map updater ends by reporting the element (`E(N)`): a component may only queue the change
+     (fix 53ac0a3 for class / style / id) *)
+  Definition setter_call (method : str) (name : option str) : str :=
+    method ++ lit "(N," ++ match name with Some n => lit_str n ++ lit "," | None => [] end.
+
+  Definition setter_dynamic (call : str) (e : expr) (b : bmc) (keys : option (list (str * N))) (st : gst)
+    : gst * list str :=
+    let '(st1, v, r) := prepare scopes lit_str e (mk_gst (next_priv st)) in
+    let main := lit "if(C||K||" ++ guard_str scopes false lit_str r ++ lit ")" ++ call ++ v ++ lit ")" in
+    let bm :=
+      match keys with
+      | Some ks =>
+          if keys_is_empty b ks then []
+          else
+            let '(st2, v2, _) := prepare scopes lit_str e (mk_gst (next_priv st1)) in
+            [write_map_prefix b ks ++ lit "(D,E,T)=>{" ++
+             join_stmts (stmts st2 ++ [call ++ v2 ++ lit ")"; lit "E(N)"]) ++ lit "}"]
+      | None => []
+      end in
+    (mk_gst (next_priv st1), stmts st1 ++ [main] ++ bm).
+
+  (* EventBinding::to_proc_gen (`R.v(N,"tap",v,catch,mut,capture,!0[,script path])`) and
+     NormalAttribute::to_proc_gen_as_change_property (`R.p(N,"p",v[,script path])`) for a dynamic value: the listener
+     setters take effect at once, their updaters do not report the element *)
+  Definition script_lvalue_tail (r : pres) : str :=
+    match r with
+    | PRes p _ =>
+        if (match p with Some path => legal_lvalue scopes (Some false) path | None => false end)
+        then lit "," ++ fst (lvalue_path scopes lit_str (Some false) p) else []
+    end.
+
+  Definition js_bool (b : bool) : str := if b then lit "!0" else lit "!1".
+  Definition event_call_post (is_catch is_mut is_capture : bool) : str :=
+    lit "," ++ js_bool is_catch ++ lit "," ++ js_bool is_mut ++ lit "," ++ js_bool is_capture ++ lit ",!0".
+
+  Definition listener_dynamic (call_pre call_post : str) (e : expr) (b : bmc) (keys : option (list (str * N)))
+             (st : gst) : gst * list str :=
+    let '(st1, v, r) := prepare scopes lit_str e (mk_gst (next_priv st)) in
+    let main := lit "if(C||K||" ++ guard_str scopes false lit_str r ++ lit ")" ++ call_pre ++ v ++ call_post
+                ++ script_lvalue_tail r ++ lit ")" in
+    let bm :=
+      match keys with
+      | Some ks =>
+          if keys_is_empty b ks then []
+          else
+            let '(st2, v2, r2) := prepare scopes lit_str e (mk_gst (next_priv st1)) in
+            [write_map_prefix b ks ++ lit "(D,E,T)=>{" ++
+             join_stmts (stmts st2 ++ [call_pre ++ v2 ++ call_post ++ script_lvalue_tail r2 ++ lit ")"]) ++ lit "}"]
+      | None => []
+      end in
+    (mk_gst (next_priv st1), stmts st1 ++ [main] ++ bm).
+
   (* text node with a dynamic value *)
   Definition text_dynamic (e : expr) (b : bmc) (keys : option (list (str * N))) (st : gst) : gst * list str :=
     let '(st1, v, r) := prepare scopes lit_str e (mk_gst (next_priv st)) in
